@@ -142,6 +142,50 @@ theorem C01_roundtrip_supplied_order (codec : Option Codec) (hcodec : ∀ c, cod
   have := (h3 p (by simpa using hp) ho).2 j hj hj'
   simpa using this
 
+/-- (6-strict) Without `assert_missing_frames_are_empty` and without `omit_empty_frames` (both defaults of the
+reading / writing side that keep every frame) the same result is delivered: every requested source plane is
+referenced by a frame, so the "missing source" refusal cannot trigger. -/
+theorem C01_roundtrip_strict (codec : Option Codec) (rows cols : Nat) (t : SegType) (segs : List Nat) (mfv : Nat)
+    (order : List Nat) (m : Mask) (hperm : order.Perm (List.range m.numPlanes))
+    (request : List Nat) (hreq : ∀ p ∈ request, p < m.numPlanes)
+    (o : SegObj) (hb : build codec rows cols t segs mfv false order m = .ok o) :
+    readBySource codec o request false = readBySource codec o request true := by
+  apply strict_eq
+  intro p hp
+  have hcover : ∀ p, p < m.numPlanes → p ∈ order := fun p hp => hperm.symm.subset (List.mem_range.mpr hp)
+  have hin : ∀ p ∈ order, p < m.numPlanes := fun p hp => List.mem_range.mp (hperm.subset hp)
+  obtain ⟨_, _, _, _, _, hs, _⟩ := build_frames codec rows cols t segs mfv false order m hin o hb
+  obtain ⟨sg, hsg⟩ := List.exists_mem_of_ne_nil _ (segmentsIterable_ne_nil t segs hs.ne)
+  have := all_cells_stored codec rows cols t segs mfv order m hcover hin o hb sg hsg p (hreq p hp)
+  exact List.mem_map.mpr ⟨(sg, p), this, rfl⟩
+
+/-- (4a) **Every non-empty (segment, plane) pair is stored, and stored once**: a cell of the loop whose pixels
+are not all zero has its (segment, source plane) key among the frames of the object, and no key occurs twice --
+whatever the empty-frame policy.  (That a pair *without* a frame is all zero is part of (6): it reads back as
+zeros and that equals the expectation.) -/
+theorem nonempty_pair_stored_once (codec : Option Codec) (rows cols : Nat) (t : SegType) (segs : List Nat) (mfv : Nat)
+    (omt : Bool) (order : List Nat) (m : Mask) (hperm : order.Perm (List.range m.numPlanes))
+    (o : SegObj) (hb : build codec rows cols t segs mfv omt order m = .ok o) :
+    o.keys.Nodup ∧
+    ∀ arr ov, castMask segs t m = .ok (arr, ov) → ∀ sg ∈ segmentsIterable t segs, ∀ p, p < m.numPlanes →
+      ∀ px, cellE arr segs t mfv sg p = .ok px → px.any (· != 0) = true → (sg, p) ∈ o.keys := by
+  have hcover : ∀ p, p < m.numPlanes → p ∈ order := fun p hp => hperm.symm.subset (List.mem_range.mpr hp)
+  have hin : ∀ p ∈ order, p < m.numPlanes := fun p hp => List.mem_range.mp (hperm.subset hp)
+  constructor
+  · obtain ⟨_, arr, _, _, _, hs, _, _, _, _, _, _, rfl⟩ := build_frames codec rows cols t segs mfv omt order m hin o hb
+    exact keys_nodup arr segs t mfv _ _ hs.nodup (planOrder_nodup arr omt order (hperm.symm.nodup List.nodup_range))
+  · intro arr ov hcm sg hsg p hp px hpx hne
+    exact nonempty_cell_stored codec rows cols t segs mfv omt order m hcover hin o hb arr ov hcm sg hsg p hp px hpx hne
+
+/-- (4b) **An accepted mask always yields at least one frame** (NumberOfFrames ≥ 1, which the frame LUT needs):
+with `omit_empty_frames` a plane that is non-empty *after quantisation* keeps a frame, and a mask that is empty
+after quantisation keeps all its frames. -/
+theorem frames_nonempty (codec : Option Codec) (rows cols : Nat) (t : SegType) (segs : List Nat) (mfv : Nat)
+    (omt : Bool) (order : List Nat) (m : Mask) (hperm : order.Perm (List.range m.numPlanes))
+    (o : SegObj) (hb : build codec rows cols t segs mfv omt order m = .ok o) : o.keys ≠ [] :=
+  SegEncodeLemmas.frames_nonempty codec rows cols t segs mfv omt order m
+    (fun _ hp => hperm.symm.subset (List.mem_range.mpr hp)) (fun _ hp => List.mem_range.mp (hperm.subset hp)) o hb
+
 /-- (6b) The hypothesis of (6) is satisfiable exactly as expected: whenever the argument checks and
 `castMask` pass and the shapes fit (one plane order entry per plane, `rows*cols` pixels per plane), the
 constructor succeeds -- nothing after the checks can fail. -/
